@@ -40,6 +40,17 @@ CLAIMED.update({
    "SSA symbolic execution + SMT (BV, FP), native replay"),
 })
 
+CLAIMED.update({
+ "C05": ("DESIGN.md 5/C05",
+   "masks.FieldUpdater Validate/Merge (with the real fmutils and fieldmaskpb code interpreted over the protobuf model) on symbolic stored/written messages for enumerated update / writable / reset masks: per-leaf frame and write conditions, rejection of invalid and read-only masks, empty-mask no-op. Groups: scalars (implicit and explicit presence) and nested message leaves, parent+child and duplicate paths.",
+   "Trusted: symgo + protobuf model over generated structs (validated per run against the real library on sampled paths), z3. Bound: masks of <=2 paths from the listed universe, nesting depth 2; oneof/repeated/map groups under update masks not yet encoded; through-resource repetition under C01.",
+   "SSA symbolic execution + SMT over a protobuf model, native replay"),
+ "C06": ("DESIGN.md 5/C06",
+   "masks.ResponseFilter Filter/FilterClone/Validate on symbolic messages (scalars, optional, nested, repeated scalar and message lists, map, oneof) for 13 read masks incl. nil/empty/parent+child/through-list, plus 7 corrupted masks: result equals the leaf-wise projection, argument never altered, clone shares nothing, Validate rejects, reads never panic.",
+   "Trusted: as C05. Bound: list length <=2, one map entry, the listed masks. Get/List/Pull wiring of the filter is covered under C01/C04 harnesses.",
+   "SSA symbolic execution + SMT over a protobuf model, native replay"),
+})
+
 NOT_YET = {}
 
 NA = {
